@@ -441,6 +441,24 @@ def run_compile(ctx, compiler, prec, uri, attach):
             "reads": 0, "toks": 0, "dirty": []}
 
 
+def _on_other_thread(fn):
+    import threading
+    box = {}
+
+    def target():
+        try:
+            box["r"] = fn()
+        except BaseException as e:  # noqa: BLE001 - re-raised on the calling thread
+            box["e"] = e
+
+    th = threading.Thread(target=target, daemon=True)
+    th.start()
+    th.join()
+    if "e" in box:
+        raise box["e"]
+    return box["r"]
+
+
 class TaskState:
     def __init__(self, ti, tspec, gens, run):
         self.ti = ti
@@ -464,7 +482,11 @@ class TaskState:
         for oi, op in enumerate(self.spec["ops"]):
             if k is not None and oi:
                 k.yield_point("op")
-            rec = self.do_op(oi, op)
+            mig = self.run.cfg.get("migrate") if k is None else None
+            if mig == "all" or (mig == "alt" and oi % 2 == 1):
+                rec = _on_other_thread(lambda: self.do_op(oi, op))  # a history that migrates between threads (still strictly sequential)
+            else:
+                rec = self.do_op(oi, op)
             self.records.append(rec)
             if k is not None:
                 k.log("end", dig(rec.get("norm")))
